@@ -81,6 +81,12 @@ class Generator:
         self.canary_fns = set()
         self.syntactic = []
         self.field_types: Dict[str, Dict[str, str]] = {}
+        # struct name -> ghost field names (`@attr ghostfield:<name>: <spec type>`), known before any fn text is rewritten
+        self.ghost_fields: Dict[str, List[str]] = {}
+        for addr, c in self.contracts.items():
+            gf = [a[len('ghostfield:'):].split(':', 1)[0].strip() for a in c.attrs if a.startswith('ghostfield:')]
+            if gf:
+                self.ghost_fields[addr.split('::')[-1]] = gf
 
     # ------------------------------------------------------------------ emit helpers
     def emit(self, text, origin='gen', **kw):
@@ -255,6 +261,12 @@ class Generator:
             body = self.strip_inner_attrs(rel, it, body)
             if it.kind == 'struct' and not (c and 'nopubfields' in c.attrs):
                 body = self.pub_fields(body)
+            body = self.r17_buffile(body)
+            gf = [a[len('ghostfield:'):].strip() for a in (c.attrs if c else []) if a.startswith('ghostfield:')]
+            if gf:
+                # ghost state of the data structure (DESIGN.md 13.8): erased fields, no run-time content
+                body = body.rstrip() + '\n' + ''.join('    pub %s: Ghost<%s>,\n' % tuple(x.strip() for x in f.split(':', 1)) for f in gf)
+                self.ghost_fields[it.name] = [f.split(':', 1)[0].strip() for f in gf]
             txt = txt[:o + 1] + body + txt[cl:]
         else:
             # tuple struct `struct A(pub String);`
@@ -443,6 +455,9 @@ impl Clone for %s {
             self.rules.hit('R9')
         if status != 'external':
             head_and_body = self.rewrite_fn_text(rel, addr, head_and_body)
+        else:
+            # external functions are only compiled: the type-level rules still apply so that they keep compiling
+            head_and_body = self.r18_ghost_literals(self.r17_buffile(head_and_body))
         canary_on = getattr(self, 'canary', False) and c is not None and status == 'verify' and it.has_body
         segs = self.splice_fn(rel, addr, head_and_body, it, c, status, line_of(it.head_start),
                               canary_mode=('start' if (canary_on and in_trait_impl) else None))
@@ -495,6 +510,29 @@ impl Clone for %s {
         txt = self.r7_drain(txt)
         txt = self.r4_wildcards(txt)
         txt = self.r13_for_mut(txt)
+        txt = self.r17_buffile(txt)
+        txt = self.r18_ghost_literals(txt)
+        return txt
+
+    def r17_buffile(self, txt):
+        # R17: `BufWriter<File>` is opaque to Verus (generic over an external trait): the stand-in
+        # `vshim::BufFile` (an external_body wrapper of the same std type) carries the assumed std contracts.
+        n = 0
+        txt, k = re.subn(r'\bBufWriter\s*<\s*File\s*>', 'crate::vshim::BufFile', txt); n += k
+        txt, k = re.subn(r'\bBufWriter::with_capacity\s*\(', 'crate::vshim::BufFile::with_capacity(', txt); n += k
+        # `f.get_ref().sync_data()`: &File receiver, so no ghost effect can be stated: the stand-in method takes &mut
+        txt, k = re.subn(r'\.get_ref\(\)\s*\.sync_data\(\)', '.sync_data()', txt); n += k
+        if n:
+            self.rules.hit('R17', n)
+        return txt
+
+    def r18_ghost_literals(self, txt):
+        # R18: a struct given ghost fields: its literals (only in unverified constructors) get `Ghost::assume_new()`
+        for name, fields in self.ghost_fields.items():
+            def rep(m):
+                self.rules.hit('R18')
+                return m.group(0) + ' '.join('%s: Ghost::assume_new(),' % f for f in fields) + ' '
+            txt = re.sub(r'\b%s\s*\{(?=\s*[a-z_][a-z0-9_]*\s*[:,])' % re.escape(name), rep, txt)
         return txt
 
     def _macro_calls(self, txt, names):
@@ -881,6 +919,12 @@ impl Clone for %s {
                     if depth != 0:
                         ok, why = False, '/%s/ is nested in a block (conditional?) of the body' % call_re
                 self.syntactic.append(dict(oid=oid, tags=tags, addr=addr, ok=ok, why=why, src_file=rel, src_line=src_line))
+            for (b_re, oid, tags) in c.contains:
+                # structural obligation: the function still contains the call (position is not checked)
+                body_txt = re.sub(r'//[^\n]*', '', txt[b_lo:b_hi])
+                ok = bool(re.search(b_re, body_txt))
+                self.syntactic.append(dict(oid=oid, tags=tags, addr=addr, ok=ok, why=('' if ok else '/%s/ no longer occurs in the function' % b_re),
+                                           src_file=rel, src_line=src_line))
             # R15: closure headers get parameter types, a named result and requires/ensures; the closure
             # body is copied verbatim inside braces
             for cs in c.closures:
